@@ -151,7 +151,12 @@ pub fn run_resp_case(c: &Value) -> Value {
         }
     }
     let via_into_ref: usize = (&resp).into_iter().count();
-    let summary = json!({"is_error": resp.is_error(), "is_success": resp.is_success(), "successful_frames": resp.successful_frames(), "count": via_into_ref});
+    // "the first frame or the error": the first item of the iteration
+    let single = match resp.clone().into_single_frame() {
+        Ok(f) => json!(["ok", f.find("tag").and_then(|t| t.parse::<u64>().ok()).unwrap_or(0)]),
+        Err(e) => json!(["err", e.code]),
+    };
+    let summary = json!({"is_error": resp.is_error(), "is_success": resp.is_success(), "successful_frames": resp.successful_frames(), "count": via_into_ref, "single": single});
     let mut owned = vec![];
     {
         let mut it = resp.into_iter();
